@@ -2338,7 +2338,479 @@ def c10(ctx):
             os.environ.pop("E2_ONLY", None)
 
 
-PROPS = {"C29": c29, "C33": c33, "C34": c34, "C31": c31, "C32": c32, "C25": c25, "C01": c01, "C09": c09, "C10": c10}
+# =========================================================================== C36
+
+S_FIELDS = ["bitcoin_data_dir", "bitcoin_rpc_limit", "bitcoin_rpc_password", "bitcoin_rpc_url", "bitcoin_rpc_username", "chain",
+            "commit_interval", "config", "config_dir", "cookie_file", "data_dir", "height_limit", "hidden", "http_port", "index",
+            "index_addresses", "index_cache_size", "index_runes", "index_sats", "index_transactions", "integration_test",
+            "max_savepoints", "no_index_inscriptions", "savepoint_interval", "server_password", "server_url", "server_username"]
+S_BOOLS = ["index_addresses", "index_runes", "index_sats", "index_transactions", "integration_test", "no_index_inscriptions"]
+S_PATHS = ["bitcoin_data_dir", "config", "config_dir", "cookie_file", "data_dir", "index"]
+S_STRS = ["bitcoin_rpc_password", "bitcoin_rpc_url", "bitcoin_rpc_username", "server_password", "server_url", "server_username"]
+S_NUMS = {"bitcoin_rpc_limit": 2**32, "commit_interval": 2**64, "height_limit": 2**32, "http_port": 2**16, "index_cache_size": 2**64,
+          "max_savepoints": 2**64, "savepoint_interval": 2**64}
+S_CHAINS = ["Mainnet", "Regtest", "Signet", "Testnet", "Testnet4"]
+S_CHAIN_DIR = [None, "regtest", "signet", "testnet3", "testnet4"]
+S_RPC_PORT = [8332, 18443, 38332, 18332, 48332]
+S_SRC_CHAIN = {"A": 1, "B": 2, "C": 3}
+S_CONST_DEFAULTS = {"bitcoin_rpc_limit": 12, "commit_interval": 5000, "max_savepoints": 2, "savepoint_interval": 10}
+
+
+def _settings_fields_from_repo():
+    """field names of struct Settings in the current /repo source, in declaration order"""
+    from . import kani as K
+    txt = K.extract_struct(open(os.path.join(C.REPO, "src/settings.rs")).read(), "Settings")
+    return re.findall(r"(?m)^\s+(?:pub(?:\([a-z]+\))? )?(\w+): ", txt)
+
+
+class _ZOps:
+    """value algebra of the specification over solver terms"""
+    def __init__(self, M):
+        self.M = M
+    def join(self, p, name):
+        import zlib
+        return self.M._PATH_JOIN(p, z3.IntVal(zlib.crc32(name.encode())))
+    def cjoin(self, chain, p):
+        return p if S_CHAIN_DIR[chain] is None else self.join(p, S_CHAIN_DIR[chain])
+    def div4(self, x):
+        return x / 4
+    def rpc_url(self, chain):
+        return ("fmt", S_RPC_PORT[chain])
+
+
+class _COps:
+    """the same algebra over concrete JSON values (native replay)"""
+    def join(self, p, name):
+        return p.rstrip("/") + "/" + name
+    def cjoin(self, chain, p):
+        return p if S_CHAIN_DIR[chain] is None else self.join(p, S_CHAIN_DIR[chain])
+    def div4(self, x):
+        return x // 4
+    def rpc_url(self, chain):
+        return "127.0.0.1:%d" % S_RPC_PORT[chain]
+
+
+def settings_spec_or(P, V, srcs):
+    """statement-level `or`: per field the first source (in precedence order) that supplies it;
+    switches are the OR; hidden lists are the union (always present after a merge)"""
+    out = {}
+    for f in S_FIELDS:
+        if f in S_BOOLS:
+            out[f] = [V[s][f] for s in srcs]                  # to be OR-ed by the caller's algebra
+        elif f == "hidden":
+            out[f] = [x for s in srcs if P[s][f] for x in V[s][f]]
+        else:
+            out[f] = next((V[s][f] for s in srcs if P[s][f]), None)
+    return out
+
+
+def settings_spec_merge(P, V, loaded, ops, home, data, mem):
+    """statement-level Settings::merge: flags (A) > environment (B) > config file (C, when one
+    was loaded) > built-in default.  Returns ("err",) or ("ok", {field: value or None})."""
+    srcs = ["A", "B"] + (["C"] if loaded else [])
+    r = settings_spec_or(P, V, srcs)
+    for (u, pw) in (("bitcoin_rpc_username", "bitcoin_rpc_password"), ("server_username", "server_password")):
+        if (r[u] is None) != (r[pw] is None):
+            return ("err",)
+    chain = r["chain"] if r["chain"] is not None else 0
+    out = dict(r)
+    out["chain"] = chain
+    bdd = r["bitcoin_data_dir"] if r["bitcoin_data_dir"] is not None else ops.join(home, ".bitcoin")
+    out["bitcoin_data_dir"] = bdd
+    out["cookie_file"] = r["cookie_file"] if r["cookie_file"] is not None else ops.join(ops.cjoin(chain, bdd), ".cookie")
+    dd = ops.cjoin(chain, r["data_dir"] if r["data_dir"] is not None else ops.join(data, "ord"))
+    out["data_dir"] = dd
+    out["index"] = r["index"] if r["index"] is not None else ops.join(dd, "index.redb")
+    out["config"] = None
+    out["config_dir"] = None
+    if r["bitcoin_rpc_url"] is None:
+        out["bitcoin_rpc_url"] = ops.rpc_url(chain)
+    if r["index_cache_size"] is None:
+        out["index_cache_size"] = ops.div4(mem)
+    for f, dflt in S_CONST_DEFAULTS.items():
+        if r[f] is None:
+            out[f] = dflt
+    return ("ok", out)
+
+
+def settings_config_path(P, V, ops, data):
+    """which file Settings::merge reads as the config file: (path, must_exist)"""
+    def first(f):
+        return next((V[s][f] for s in ("A", "B") if P[s][f]), None)
+    if first("config") is not None:
+        return first("config"), False
+    d = first("config_dir")
+    if d is None:
+        d = first("data_dir")
+    if d is None:
+        d = ops.join(data, "ord")
+    return ops.join(d, "ord.yaml"), True
+
+
+def c36(ctx):
+    """Settings precedence: the real Settings::or, Settings::merge, Settings::or_defaults and
+    default_data_dir (copied verbatim into the lift crate) against the statement-level
+    specification above.  Supplied values are solver variables (so equal and conflicting
+    values across sources are both covered); which sources supply which field is a concrete
+    pattern per query set."""
+    import copy as _copy, itertools as _it, zlib
+    from . import mirmodels as M
+    Container = M.Container
+    ex = ctx.executor("lift-dev")
+    fields_now = _settings_fields_from_repo()
+    def none():
+        return Enum("Option", 0, [])
+    def some(v):
+        return Enum("Option", 1, [v])
+
+    def fields_guard(ob):
+        if fields_now != S_FIELDS:
+            raise Unsupported("struct Settings changed its fields (%s): the specification table S_FIELDS must be revisited"
+                              % sorted(set(fields_now) ^ set(S_FIELDS)))
+
+    def mk_sources(ob, pattern, sym_bools, sym_hidden, srcs=("A", "B", "C")):
+        """pattern: {src: {field: bool}}.  Returns (P, V, structs, pre)."""
+        P, V, structs, pre = {}, {}, {}, []
+        ob.vars = {}
+        for s_ in srcs:
+            P[s_], V[s_] = {}, {}
+            fs = []
+            for f in S_FIELDS:
+                on = pattern[s_][f]
+                P[s_][f] = on
+                if f in S_BOOLS:
+                    if sym_bools:
+                        v = z3.Bool("%s_%s" % (s_, f)); ob.vars["%s_%s" % (s_, f)] = v
+                    else:
+                        v = bool(on)
+                    V[s_][f] = v
+                    fs.append(v)
+                elif f == "hidden":
+                    if not on:
+                        V[s_][f] = []; fs.append(none()); continue
+                    n = 2 if s_ != "B" else 1
+                    if sym_hidden:
+                        el = []
+                        for k in range(n):
+                            x = z3.Int("%s_hidden%d" % (s_, k)); ob.vars["%s_hidden%d" % (s_, k)] = x
+                            pre += [x >= 0, x < 2**32]
+                            el.append(x)
+                        if n == 2:
+                            pre.append(el[0] != el[1])       # a HashSet holds distinct elements
+                    else:
+                        el = [z3.IntVal(7)] + ([z3.IntVal(10 + S_SRC_CHAIN[s_])] if n == 2 else [])   # 7 is shared by all sources
+                    V[s_][f] = el
+                    fs.append(some(Container("hashset", [Struct([e, 0]) for e in el])))
+                elif f == "chain":
+                    V[s_][f] = S_SRC_CHAIN[s_]
+                    fs.append(some(Enum("Chain", S_SRC_CHAIN[s_], [])) if on else none())
+                else:
+                    if on:
+                        x = z3.Int("%s_%s" % (s_, f)); ob.vars["%s_%s" % (s_, f)] = x
+                        pre += [x >= 0, x < S_NUMS.get(f, 2**32)]
+                        V[s_][f] = x
+                        fs.append(some(x))
+                    else:
+                        V[s_][f] = None
+                        fs.append(none())
+            structs[s_] = Struct(fs)
+        return P, V, structs, pre
+
+    def opt_eq(got, want):
+        """got: Option value from the engine; want: None or a term"""
+        if want is None:
+            return z3.BoolVal(got.variant == 0)
+        if got.variant != 1:
+            return z3.BoolVal(False)
+        g = got.fields[0]
+        if isinstance(want, tuple) and want[0] == "fmt":
+            # the default RPC URL: format!("127.0.0.1:{}", port of the resolved chain)
+            ok = isinstance(g, X.Opaque) and g.what == "formatted" and b"127.0.0.1:" in bytes(_tmpl(g.data["template"])) \
+                and len(g.data["args"]) == 1 and X.is_conc(g.data["args"][0]) and g.data["args"][0] == want[1]
+            if not ok and os.environ.get("E2_TRACE"):
+                sys.stderr.write("fmt mismatch: %r %r\n" % (g, getattr(g, "data", None)))
+            return z3.BoolVal(bool(ok))
+        if isinstance(g, X.Opaque):
+            return z3.BoolVal(False)
+        if isinstance(g, Enum):
+            return z3.BoolVal(g.variant == want)
+        return X.zint(g) == want
+
+    def _tmpl(t):
+        t = M.deref(t)
+        if isinstance(t, X.Opaque) and t.what == "bytes":
+            return str(t.data).encode("latin-1", "replace")      # the MIR byte-string literal as printed
+        return b""
+
+    def set_eq(got, want):
+        if got.variant != 1 or not isinstance(got.fields[0], Container):
+            return z3.BoolVal(False)
+        els = [X.zint(e[0]) for e in got.fields[0]]
+        conds = [z3.Or(*[e == w for e in els]) if els else z3.BoolVal(False) for w in want]
+        conds += [z3.Or(*[e == w for w in want]) if want else z3.BoolVal(False) for e in els]
+        conds += [els[i] != els[j] for i in range(len(els)) for j in range(i + 1, len(els))]
+        return z3.And(*conds) if conds else z3.BoolVal(True)
+
+    def check_struct(ob, pc, got, want, what):
+        conds = []
+        for i, f in enumerate(S_FIELDS):
+            g = got[i]
+            if f in S_BOOLS:
+                w = want[f]
+                w = z3.Or(*[X.zbool(x) for x in w]) if isinstance(w, list) else X.zbool(w)
+                conds.append((X.zbool(g) == w, "%s: switch %s must be on iff some source sets it" % (what, f)))
+            elif f == "hidden":
+                conds.append((set_eq(g, want[f]), "%s: hidden must be the union of the sources' lists" % what))
+            else:
+                conds.append((opt_eq(g, want[f]), "%s: %s must come from the highest-precedence source that supplies it" % (what, f)))
+        # one query for the whole struct; on failure, one per field to name the field
+        s_ = z3.Solver(); s_.set("timeout", 60000)
+        s_.add(*pc); s_.add(z3.Not(z3.And(*[c for c, _ in conds])))
+        if s_.check() == z3.unsat:
+            ob.query(pc, z3.And(*[c for c, _ in conds]), ob.vars, what + ": all 27 fields")
+            return
+        for c, w in conds:
+            ob.query(pc, c, ob.vars, w)
+
+    # ---------------------------------------------------------------- Settings::or
+    def body_or(pattern):
+        def body(ob):
+            fields_guard(ob)
+            P, V, S_, pre = mk_sources(ob, pattern, True, True, ("A", "B"))
+            st = X.State(); st.pc = list(pre)
+            res = ex.run("settings_extract::_::or", [S_["A"], S_["B"]], st)
+            ob.paths += len(res)
+            want = settings_spec_or(P, V, ["A", "B"])
+            for r in res:
+                if r.kind != "return":
+                    ob.reach(r.pc, "Settings::or panics: " + r.msg)
+                    continue
+                check_struct(ob, r.pc, r.value, want, "Settings::or")
+        return body
+
+    def uniform(bits, srcs=("A", "B", "C")):
+        return {s_: {f: bool(b) for f in S_FIELDS} for s_, b in zip(srcs, bits)}
+    def mixed(k, srcs=("A", "B", "C")):
+        pat = {s_: {} for s_ in srcs}
+        for i, f in enumerate(S_FIELDS):
+            c = (i * 3 + k) % 8
+            for j, s_ in enumerate(srcs):
+                pat[s_][f] = bool((c >> (2 - j)) & 1)
+        return pat
+    def pname(pat):
+        return "".join("".join("1" if pat[s_][f] else "0" for s_ in sorted(pat)) for f in ("bitcoin_data_dir", "bitcoin_rpc_limit", "bitcoin_rpc_password"))
+
+    or_pats = [("u%d%d" % b, uniform(b + (0,))) for b in _it.product((0, 1), repeat=2)] + [("m%d" % k, mixed(k)) for k in (1, 2, 5, 6)]
+    for nm, pat in or_pats:
+        pat = {s_: pat[s_] for s_ in ("A", "B")}
+        guarded(ctx, "c36_or_%s" % nm,
+                "Settings::or(self, source): every field takes self's value when self supplies it and source's otherwise; every switch is the OR; hidden is Some(union)",
+                "presence pattern %s (which of self/source supplies each of the 27 fields; 'u' = same for all fields, 'm' = varying per field); supplied values and all switches are solver variables (u32 tokens stand for paths and strings; numeric fields full range); hidden lists of 2 and 1 arbitrary ids" % nm,
+                "lift-dev", body_or(pat), _rep_settings(ctx, "or", pat))
+
+    # ---------------------------------------------------------------- Settings::merge
+    def body_merge(pattern):
+        def body(ob):
+            fields_guard(ob)
+            P, V, S_, pre = mk_sources(ob, pattern, False, False)
+            home, data, mem = z3.Int("os_home_dir"), z3.Int("os_data_dir"), z3.Int("os_total_memory")
+            ob.vars.update(os_home_dir=home, os_data_dir=data, os_total_memory=mem)
+            pre += [home >= 0, home < 2**32, data >= 0, data < 2**32, mem >= 0, mem < 2**64]
+            ops = _ZOps(M)
+            def ov_open(e, st_, a):
+                st_.keep.append(X.zint(M.deref(a[0])))
+                return Enum("Result", 0, [Struct([0])])
+            def ov_cjoin(e, st_, a):
+                return ops.cjoin(a[0].variant, X.zint(M.deref(a[1])))
+            ex.overrides = {
+                "<impl Settings>::from_options": lambda e, st_, a: _copy.deepcopy(S_["A"]),
+                "<impl Settings>::from_env": lambda e, st_, a: Enum("Result", 0, [_copy.deepcopy(S_["B"])]),
+                "from_reader": lambda e, st_, a: Enum("Result", 0, [_copy.deepcopy(S_["C"])]),
+                "File::open": ov_open,
+                "^(lift::)?(dirs::)?home_dir$": lambda e, st_, a: some(home),
+                "^(lift::)?(dirs::)?data_dir$": lambda e, st_, a: some(data),
+                "Chain::join_with_data_dir": ov_cjoin,
+                "Chain::default_rpc_port": lambda e, st_, a: S_RPC_PORT[a[0].variant],
+                "System::new": lambda e, st_, a: Struct([0]),
+                "System::refresh_memory": lambda e, st_, a: Struct([]),
+                "System::total_memory": lambda e, st_, a: mem,
+            }
+            try:
+                st = X.State(); st.pc = list(pre); st.keep = []
+                res = ex.run("settings_extract::_::merge", [Struct([0]), Container("btreemap", [])], st)
+            finally:
+                ex.overrides = {}
+            ob.paths += len(res)
+            cpath, must_exist = settings_config_path(P, V, ops, data)
+            for r in res:
+                if r.kind != "return":
+                    ob.reach(r.pc, "Settings::merge panics: " + r.msg)
+                    continue
+                opened = r.keep
+                loaded = len(opened) == 1
+                if len(opened) > 1:
+                    ob.query(r.pc, False, ob.vars, "Settings::merge opens more than one config file")
+                    continue
+                if loaded:
+                    ob.query(r.pc, z3.And(opened[0] == cpath, M._PATH_EXISTS(cpath) if must_exist else z3.BoolVal(True)), ob.vars,
+                             "the config file read is --config/ORD_CONFIG, else ord.yaml in the config dir, else in the data dir, else in the default data dir, and the implicit ones only when they exist")
+                else:
+                    ob.query(r.pc, z3.Not(M._PATH_EXISTS(cpath)) if must_exist else z3.BoolVal(False), ob.vars,
+                             "no config file is read only when none was named and the implicit ord.yaml does not exist")
+                want = settings_spec_merge(P, V, loaded, ops, home, data, mem)
+                if want[0] == "err":
+                    ob.query(r.pc, z3.BoolVal(r.value.variant == 1), ob.vars, "a username without a password (or the reverse) must be refused")
+                    continue
+                if r.value.variant != 0:
+                    ob.reach(r.pc, "Settings::merge fails although the sources are consistent")
+                    continue
+                w = dict(want[1])
+                w["chain"] = w["chain"]
+                check_struct(ob, r.pc, r.value.fields[0], w, "Settings::merge (config file %s)" % ("read" if loaded else "absent"))
+        return body
+
+    merge_pats = [("u%d%d%d" % b, uniform(b)) for b in _it.product((0, 1), repeat=3)] + [("m%d" % k, mixed(k)) for k in range(8)]
+    # no explicit --config: the implicit ord.yaml is looked up in the config dir, else the data dir, else the default data dir
+    def without(pat, spec):
+        pat = {s_: dict(pat[s_]) for s_ in pat}
+        for f, (a, b) in spec.items():
+            pat["A"][f], pat["B"][f] = bool(a), bool(b)
+        return pat
+    merge_pats += [("n0", without(mixed(0), {"config": (0, 0)})),
+                   ("n1", without(mixed(3), {"config": (0, 0), "config_dir": (0, 1), "data_dir": (1, 0)})),
+                   ("n2", without(mixed(5), {"config": (0, 0), "config_dir": (0, 0), "data_dir": (1, 1)})),
+                   ("n3", without(mixed(6), {"config": (0, 0), "config_dir": (0, 0), "data_dir": (0, 0)})),
+                   ("n4", without(mixed(2), {"config": (0, 0), "config_dir": (1, 1), "data_dir": (0, 1)})),
+                   ("n5", without(uniform((1, 1, 1)), {"config": (0, 0)}))]
+    if ctx.tier == "thorough":
+        rnd = random.Random(C.seed() + 36)
+        for k in range(40):
+            merge_pats.append(("r%d" % k, {s_: {f: rnd.random() < 0.5 for f in S_FIELDS} for s_ in ("A", "B", "C")}))
+    for nm, pat in merge_pats:
+        guarded(ctx, "c36_merge_%s" % nm,
+                "Settings::merge: every setting comes from the flags if they supply it, else the environment, else the config file (when one is read), else the built-in default; switches are the OR of all sources; hidden is the union; the config file read is the named one, else ord.yaml of the config dir / data dir / default data dir when it exists; a username without password is refused",
+                "presence pattern %s over flags/env/config for the 27 fields; supplied values, OS home/data dir and memory size are solver variables (u32 tokens for paths and strings, full range for numbers), the file-system's answer to exists() is an arbitrary Bool; switches follow the pattern; hidden lists are concrete ids sharing one element. Stubs: Settings::from_options / from_env / serde_yaml::from_reader return the pattern's Settings; File::open succeeds; Chain::join_with_data_dir / default_rpc_port as in src/chain.rs; format! is recorded as template + arguments (the default RPC URL must be the 127.0.0.1 template with the resolved chain's port)" % nm,
+                "lift-dev", body_merge(pat), _rep_settings(ctx, "merge", pat))
+
+
+def _rep_settings(ctx, mode, pattern):
+    """native replay of a C36 counterexample through the lift crate's vreplay_settings test"""
+    def go(v):
+        import json as _json, tempfile, shutil
+        from . import kani as K
+        crate = K.gen_lift()
+        root = tempfile.mkdtemp(prefix="vreplay_settings_")
+        try:
+            def pth(x):
+                return "%s/p%d" % (root, x)
+            P, V = {}, {}
+            js = {}
+            for s_ in sorted(pattern):
+                P[s_], V[s_] = {}, {}
+                d = {}
+                for f in S_FIELDS:
+                    on = pattern[s_][f]
+                    P[s_][f] = on
+                    key = "%s_%s" % (s_, f)
+                    if f in S_BOOLS:
+                        b = (str(v.get(key)) == "True") if key in v else bool(on)
+                        V[s_][f] = b
+                        d[f] = b
+                    elif f == "hidden":
+                        if not on:
+                            V[s_][f] = []
+                            continue
+                        n = 2 if s_ != "B" else 1
+                        if "%s_hidden0" % s_ in v:
+                            el = [v["%s_hidden%d" % (s_, k)] for k in range(n)]
+                        else:
+                            el = [7] + ([10 + S_SRC_CHAIN[s_]] if n == 2 else [])
+                        V[s_][f] = ["%064xi0" % e for e in el]
+                        d[f] = V[s_][f]
+                    elif f == "chain":
+                        V[s_][f] = S_SRC_CHAIN[s_]
+                        if on:
+                            d[f] = S_CHAINS[S_SRC_CHAIN[s_]]
+                    elif on:
+                        x = v.get(key, 0)
+                        x = pth(x) if f in S_PATHS else ("s%d" % x if f in S_STRS else x)
+                        V[s_][f] = x
+                        d[f] = x
+                    else:
+                        V[s_][f] = None
+                js[s_.lower()] = d
+            if "c" not in js:
+                js["c"] = {}
+            home, data, mem = pth(v.get("os_home_dir", 1)) + "h", pth(v.get("os_data_dir", 2)) + "d", v.get("os_total_memory", 0)
+            js.update(mode=mode, home=home, data=data, mem=mem)
+            ops = _COps()
+            def run(create):
+                if mode == "merge":
+                    cpath, must_exist = settings_config_path(P, V, ops, data)
+                    if must_exist:
+                        if create:
+                            os.makedirs(os.path.dirname(cpath), exist_ok=True)
+                            open(cpath, "w").write("")
+                        elif os.path.exists(cpath):
+                            os.remove(cpath)
+                    elif not create:
+                        return None          # a named config file is always read
+                fn = os.path.join(root, "spec.json")
+                with open(fn, "w") as f_:
+                    _json.dump(js, f_)
+                env = C.env({"VREPLAY_SETTINGS": fn, "CARGO_TARGET_DIR": os.path.join(C.BUILD, "t-liftk-replay")})
+                p = subprocess.run(["cargo", "test", "--offline", "--lib", "vreplay_settings", "--", "--nocapture"], cwd=crate, env=env,
+                                   stdout=subprocess.PIPE, stderr=subprocess.STDOUT, universal_newlines=True, timeout=1800)
+                out = p.stdout
+                m = re.search(r"^SETTINGS(-ERR)? (.*)$", out, re.M)
+                if "test result: FAILED" in out and not m:
+                    return {"spec": js, "native": "panic"}
+                if not m:
+                    raise RuntimeError("replay test did not run: " + out[-500:])
+                if mode == "merge":
+                    # which config file was opened (the shim's File::open reports its argument)
+                    opened = re.findall(r"^SETTINGS-OPENED (.*)$", out, re.M)
+                    cpath, must_exist = settings_config_path(P, V, ops, data)
+                    want_open = [cpath] if (create or not must_exist) else []
+                    if opened != want_open:
+                        return {"spec": js, "config_file_exists": create, "opened": opened, "expected_opened": want_open}
+                if mode == "or":
+                    w = settings_spec_or(P, V, ["A", "B"])
+                    want = ("ok", {f: (any(w[f]) if f in S_BOOLS else w[f]) for f in S_FIELDS})
+                else:
+                    want = settings_spec_merge(P, V, create, ops, home, data, mem)
+                    if want[0] == "ok":
+                        want[1].update({f: any(want[1][f]) for f in S_BOOLS})
+                if m.group(1):
+                    return None if want[0] == "err" else {"spec": js, "config_file_exists": create, "native": m.group(0)[:300], "expected": "Ok"}
+                if want[0] == "err":
+                    return {"spec": js, "config_file_exists": create, "native": m.group(0)[:300], "expected": "Err"}
+                got = _json.loads(m.group(2))
+                bad = {}
+                for f in S_FIELDS:
+                    g, w_ = got.get(f), want[1][f]
+                    if f == "hidden":
+                        ok = g is not None and sorted(g) == sorted(set(w_)) and len(g) == len(set(g))
+                    elif f == "chain":
+                        ok = g == (S_CHAINS[w_] if w_ is not None else None)
+                    else:
+                        ok = g == w_
+                    if not ok:
+                        bad[f] = {"native": g, "expected": w_}
+                if bad:
+                    return {"spec": js, "config_file_exists": create, "fields": bad}
+                return None
+            for create in (True, False):
+                r = run(create)
+                if r:
+                    return r
+            return None
+        finally:
+            shutil.rmtree(root, ignore_errors=True)
+    return go
+
+
+PROPS = {"C29": c29, "C33": c33, "C34": c34, "C31": c31, "C32": c32, "C25": c25, "C01": c01, "C09": c09, "C10": c10, "C36": c36}
 
 
 def main():
